@@ -741,6 +741,25 @@ def translate(ctx=None) -> Path:
     w_skip = _gate(sk.test, {})
     if a_catch != w_catch or a_trp != w_trp:
         raise TranslatorError("the two re-entry sites differ in handlers or try_relative_path")
+    # ---- resolve_aliases: the schedule of wildcard sweeps (replayed by the harness to predict the re-entrant loads)
+    fr_ = _fn(lt, "GriffeLoader.resolve_aliases")
+    inner = [n for n in fr_.body if isinstance(n, ast.FunctionDef) and n.name == "expand_all_wildcards"]
+    if len(inner) != 1:
+        raise TranslatorError("resolve_aliases: local expand_all_wildcards() not found (the wildcard sweep schedule changed)")
+    sweep = [n for n in inner[0].body if isinstance(n, ast.While)]
+    if len(sweep) != 1 or "len(collection)" not in ast.unparse(sweep[0].test) or "wildcards_left" not in ast.unparse(sweep[0].test) \
+            or "self.expand_wildcards(wildcards_module, external=external)" not in ast.unparse(sweep[0]):
+        raise TranslatorError("resolve_aliases: expand_all_wildcards no longer sweeps until (packages loaded, wildcard imports left) is stable")
+    loops = [n for n in fr_.body if isinstance(n, ast.While)]
+    if len(loops) != 1:
+        raise TranslatorError("resolve_aliases: expected one resolution loop")
+    body_src = [ast.unparse(x) for x in loops[0].body]
+    if "progress = bool(resolved) or len(collection) != loaded_modules" not in body_src \
+            or "if progress:\n    expand_all_wildcards()" not in body_src:
+        raise TranslatorError("resolve_aliases: the sweep is no longer re-run exactly after iterations with progress (resolved aliases or loaded packages)")
+    calls = sum(1 for n in ast.walk(fr_) if isinstance(n, ast.Call) and isinstance(n.func, ast.Name) and n.func.id == "expand_all_wildcards")
+    if calls != 2:
+        raise TranslatorError(f"resolve_aliases: expand_all_wildcards is called at {calls} places (expected: before the loop, after an iteration with progress)")
     n_loads = _all_self_load_calls(lt)
     if n_loads != 2:
         raise TranslatorError(f"GriffeLoader calls self.load at {n_loads} sites (expected the two re-entry sites)")
